@@ -23,10 +23,10 @@ func init() {
 	register(&Check{
 		ID:      "C18",
 		Modules: []string{""},
-		Explanation: "Table/exhaustiveness rules on commentparser/language (relations read from the switch statements, not executed) and path/typestate rules on the lexer: (R18.1) every comment style that has a delimiter row is returned by commentStyle for some language, and every language style has some delimiter; " +
+		Explanation: "Table/exhaustiveness rules on commentparser/language (relations read by constant propagation over the table functions, not executed) and path/typestate rules on the lexer: (R18.1) every comment style that has a delimiter row is returned by commentStyle for some language, and every language style has some delimiter; " +
 			"(R18.2) for all 47 languages a multi-line start delimiter exists iff an end delimiter exists; (R18.3) singleLineComment and multiLineComment consult the same fallback languages; (R18.4) consumption typestate on lex: no rune is consumed right after a delimiter was consumed without being examined; " +
 			"(R18.5) every cycle of lex and match passes a consuming call; (R18.6) the ChunkIterator goroutine closes its channel on all paths and is the only sender; (R18.7) raw (backquote) strings have no escape character; (R18.8) the text that is lexed is the input itself plus at most a terminating newline (so line numbers are those of the file); (R18.9) the contents of a string literal are recorded as a comment only behind a successful match of a triple quote. " +
-			"Necessary conditions of agreeing with a reference lexer; agreement on all strings and the chunk grouping arithmetic are not decided. R18.4 fails today at four (read, origin) pairs which are recorded as known findings.",
+			"Necessary conditions of agreeing with a reference lexer; agreement on all strings and the chunk grouping arithmetic are not decided. Boolean flags that record how a loop was left are followed path-sensitively. R18.4 failed on the pinned tree at four (read, origin) pairs (D8a, D8b), repaired since.",
 		Run: runC18,
 	})
 }
